@@ -16,3 +16,6 @@ pub use tcp::TcpStream;
 #[cfg(feature = "tls")]
 pub use tls::TlsBraid;
 pub use unix::UnixStream;
+
+#[cfg(all(test, feature = "verif-hooks"))]
+mod verif_replays_streams;
